@@ -61,8 +61,11 @@ def make_sir_rule(rule, G):
     """rule: {'kind': 'exp'|'const'|'unif', 'tau', 'gamma', 'form': 'sep'|'joint'}; randomness from the global `random`."""
     kind = rule['kind']
     tau, gamma = rule.get('tau', 1.0), rule.get('gamma', 1.0)
+    zero = set(u for i, u in enumerate(G) if i % 3 == 0) if rule.get('zero_some') else ()
 
     def dur(u):
+        if u in zero:
+            return 0.0            # an infectious period of exactly zero: infected and recovered at the same instant
         if kind == 'exp':
             return random.expovariate(gamma) if gamma > 0 else float('inf')
         if kind == 'const':
@@ -94,8 +97,11 @@ def make_sis_rule(rule, G):
     tau, gamma = rule.get('tau', 1.0), rule.get('gamma', 1.0)
     index = {u: i for i, u in enumerate(G)}
     shared = {}
+    zero = set(u for i, u in enumerate(G) if i % 3 == 0) if rule.get('zero_some') else ()
 
     def dur(u):
+        if u in zero:
+            return 0.0
         if kind == 'exp':
             return random.expovariate(gamma)
         if kind == 'const':
